@@ -139,3 +139,24 @@ def is_empty_temp(n):
     if k == "lit" and n["t"] == "null":
         return True
     return False
+
+
+def static_locals(f):
+    """[(name, elem)] static / thread_local objects declared inside f"""
+    out = []
+    for bid, i, e in f.all_elems():
+        x = e.get("expr")
+        if x is None:
+            continue
+        for y in walk(x):
+            if y.get("k") == "decl":
+                for v in y.get("vars", []):
+                    if v.get("static"):
+                        out.append((v["name"], e))
+    return out
+
+
+def fx(ctx, qual):
+    """the fixture function vfix::<qual> (None + broken obligation if the fixtures unit was not extracted)"""
+    fs = [f for f in ctx.prog.find("vfix::" + qual) if f.has_cfg]
+    return fs[0] if fs else None
